@@ -164,6 +164,11 @@ class HierDictDocument(DictDocument):
                                                     self.VALID_UNICODE_SOURCES):
             raise ValidationError([key, inst])
 
+        elif issubclass(cls, ByteArray) and not isinstance(inst,
+                                                    self.VALID_UNICODE_SOURCES):
+            # binary data arrives either as text (base64 etc.) or as raw bytes
+            raise ValidationError([key, inst])
+
     def _from_leaf(self, key, cls, inst, *args):
         # document values can be of any kind (number, bool, list, dict...)
         # whereas most readers only know how to parse text.
